@@ -97,6 +97,42 @@ Qed.
 Theorem valid_file_iff ts : valid_file ts = true <-> forall t, In t ts -> valid_task t = true.
 Proof. apply forallb_forall. Qed.
 
+(* ---- the VALUES of three keywords are checked when the task is built (task/valid.rs::get_task; K53, K54 fixed):
+   `when` and `changed_when` must be absent (null), a boolean, a number, a string, or a list of those;
+   `check_mode` must be absent or a boolean.  Anything else refuses the script. ---- *)
+Inductive yv := YNull | YBool | YNum | YStr | YSeq (l : list yv) | YMap.
+Definition scalar (v : yv) : bool := match v with YBool | YNum | YStr => true | _ => false end.
+Definition cond_ok (v : yv) : bool :=
+  match v with
+  | YNull | YBool | YNum | YStr => true
+  | YSeq l => forallb scalar l
+  | YMap => false
+  end.
+Definition flag_ok (v : yv) : bool := match v with YNull | YBool => true | _ => false end.
+Record taskvals := { v_when : yv; v_changed_when : yv; v_check_mode : yv }.
+Definition values_ok (tv : taskvals) : bool :=
+  andb (cond_ok (v_when tv)) (andb (cond_ok (v_changed_when tv)) (flag_ok (v_check_mode tv))).
+Definition valid_entry (t : rawtask) (tv : taskvals) : bool := andb (valid_task t) (values_ok tv).
+Definition valid_entries (ts : list (rawtask * taskvals)) : bool := forallb (fun p => valid_entry (fst p) (snd p)) ts.
+
+(* a condition that cannot be read is never "no condition": the task - and with it the file - is refused *)
+Theorem unreadable_condition_invalidates t tv :
+  cond_ok (v_when tv) = false \/ cond_ok (v_changed_when tv) = false \/ flag_ok (v_check_mode tv) = false ->
+  valid_entry t tv = false.
+Proof.
+  unfold valid_entry, values_ok. intros [H|[H|H]]; rewrite H; now rewrite ?andb_false_r.
+Qed.
+Theorem invalid_values_invalidate_file a b t tv :
+  valid_entry t tv = false -> valid_entries (a ++ (t, tv) :: b) = false.
+Proof.
+  intro H. unfold valid_entries. rewrite forallb_app. cbn [forallb fst snd]. rewrite H. now rewrite andb_false_r.
+Qed.
+(* what is readable: exactly null, scalars and lists of scalars; a list with a null or a nested list is not *)
+Example cond_examples :
+  cond_ok YNull = true /\ cond_ok (YSeq [YBool; YNum; YStr]) = true /\ cond_ok (YSeq [YBool; YNull]) = false
+  /\ cond_ok (YSeq [YSeq [YBool]]) = false /\ cond_ok YMap = false /\ flag_ok YStr = false /\ flag_ok YNum = false /\ flag_ok YBool = true.
+Proof. repeat split; reflexivity. Qed.
+
 (* the two name sets do not overlap: no word is both (a keyword named like a module would make a task
    with that single key valid and empty) *)
 Example modules_and_keywords_disjoint : forallb (fun k => negb (is_module k)) keywords = true.
